@@ -6,7 +6,7 @@ ALL_TAGS = '{"C01","C04","C07","C09","C18"}'
 
 
 def session_model(name, lens, maxsend, mru, init, quanta, term, close, dev='{}', enforced=ALL_TAGS, pop='TRUE',
-                  expect='ok', fair=False, props=(), timeout=1800, note=''):
+                  expect='ok', fair=False, props=(), timeout=1800, note='', seg_choice='{}', seg_floor=0):
     mod = '''---- MODULE %s ----
 EXTENDS TcpclSession
 McLens == %s
@@ -27,6 +27,8 @@ CONSTANTS
   Adv = {}
   AdvMoves = {}
   MaxAdv = 0
+  SegChoice = %s
+  SegFloor = %d
   Dev = %s
   Enforced = %s
   Known = {}
@@ -35,7 +37,7 @@ INVARIANT OK
 INVARIANT QuiescentOK
 %s
 CHECK_DEADLOCK FALSE
-''' % ('FairSpec' if fair else 'Spec', quanta, term, close, pop, dev, enforced,
+''' % ('FairSpec' if fair else 'Spec', quanta, term, close, pop, seg_choice, seg_floor, dev, enforced,
        '\n'.join('PROPERTY %s' % p for p in props))
     return ModelRun(name, cfg, name, expect=expect, module_text=mod, timeout=timeout, note=note)
 
@@ -49,6 +51,26 @@ BOTHQ = '{"one","all"}'
 BOTH = '{"A","P"}'
 
 
+def adaptive_models(dev_names=()):
+    """ Adaptive segment sizing with two pipelined transfers A -> P (peer MRU 2, controller outputs 1..3). """
+    a2 = '[A |-> 2, P |-> 0]'
+    mru = '[A |-> 2, P |-> 2]'
+    runs = [session_model('MC_adapt', '{3}', a2, mru, INI, '{"all"}', '{}', '{}', pop='FALSE',
+                          seg_choice='{1, 2, 3}', seg_floor=1,
+                          note='adaptive segment sizing: two 3-octet bundles pipelined ahead of their ACKs, any '
+                               'controller output 1..3 at every ACK, clamped to [1, peer MRU 2]')]
+    if 'ack_timing_keyed_by_length' in dev_names:
+        runs.append(session_model('MC_adapt_dev_key', '{3}', a2, mru, INI, '{"all"}', '{}', '{}', pop='FALSE',
+                                  seg_choice='{1, 2, 3}', seg_floor=1, dev='{"ack_timing_keyed_by_length"}',
+                                  expect='violation',
+                                  note='transmit times keyed by cumulative length alone must be caught'))
+    if 'floor_beats_mru' in dev_names:
+        runs.append(session_model('MC_adapt_dev_floor', '{3}', a2, mru, INI, '{"all"}', '{}', '{}', pop='FALSE',
+                                  seg_choice='{1, 2, 3}', seg_floor=3, dev='{"floor_beats_mru"}', expect='violation',
+                                  note='a lower clamp applied after the peer MRU must be caught'))
+    return runs
+
+
 def quick_models(dev_names=()):
     runs = [
         session_model('MC_q1', '{0,1,3}', A1, MRU, INI, BOTHQ, BOTH, '{}',
@@ -59,7 +81,10 @@ def quick_models(dev_names=()):
         session_model('MC_q3', '{0,3}', A1, MRU, INI, BOTHQ, '{"A"}', BOTH,
                       note='close() by either user at any moment, terminate by A'),
     ]
-    for dev in dev_names:
+    adaptive_devs = ('ack_timing_keyed_by_length', 'floor_beats_mru')
+    if any(d in adaptive_devs for d in dev_names):
+        runs += adaptive_models(dev_names)
+    for dev in [d for d in dev_names if d not in adaptive_devs]:
         runs.append(session_model('MC_dev_' + dev, '{0,1,3}', A1, MRU, INI, BOTHQ, BOTH, '{}',
                                   dev='{"%s"}' % dev, expect='violation',
                                   note='the deviation %s of the original code must violate an invariant' % dev))
@@ -125,6 +150,8 @@ CONSTANTS
   Adv = {"A"}
   AdvMoves <- McMoves
   MaxAdv = %d
+  SegChoice = {}
+  SegFloor = 0
   Dev = %s
   Enforced = {"C17"}
   Known = {}
